@@ -265,7 +265,7 @@ pub fn const_items(id: usize, l: &Layout, words: &[u32]) -> String {
 }
 
 pub fn corpus_c15(tier: Tier, seed: u64) -> Vec<(usize, Layout)> {
-    let n = tier.pick(300usize, 3000usize);
+    let n = tier.pick(600usize, 4000usize);
     let mut v: Vec<Layout> = Vec::new();
     let mut p = Profile::general();
     p.kinds = [3, 5, 3, 3, 2, 2, 2];
@@ -288,7 +288,7 @@ pub fn run(rc: &RunCtx) -> Outcome {
         }
     }
     let words = sample_choices(rc.seed, 23, layouts.len(), 400);
-    let cfg = BConfig { emit: EmitOpts::none(), profiles: rc.tier.pick(vec!["dev"], vec!["dev", "release"]), cases: 1, max_ops: 1, exh_budget: 1, ncrates: 16 };
+    let cfg = BConfig { emit: EmitOpts::none(), profiles: rc.tier.pick(vec!["dev"], vec!["dev", "release"]), cases: 1, max_ops: 1, exh_budget: 1, ncrates: 16, tolerant: false };
     let f = |id: usize, l: &Layout| -> Option<String> { Some(const_items(id, l, &words[id % words.len()])) };
     let out = run_corpus(rc, &cfg, &layouts, "b", &[], Some(&f));
     let mut o = summarize(rc, &cfg, &layouts, out);
